@@ -4,6 +4,7 @@ package otlptracegrpc
 
 import (
 	"context"
+	"time"
 
 	"google.golang.org/grpc"
 	"google.golang.org/protobuf/proto"
@@ -17,10 +18,24 @@ const vCanStop = true
 
 type vUploader struct {
 	upload      func(context.Context) error
-	stop        func()
+	stop        func() error
 	waitStopped func()
 	close       func()
 	request     proto.Message
+	stopCtx     func(context.Context) error
+}
+
+// vExporter: what the `shut` scenario drives. For the trace exporters the otlptrace.Exporter passes ExportSpans /
+// Shutdown straight to the client's UploadTraces / Stop, which is what is called here.
+type vExporter struct {
+	export   func(context.Context) error
+	shutdown func(context.Context) error
+	close    func()
+}
+
+func vNewExporter(core *vCore, rc RetryConfig, to string) *vExporter {
+	up := vNewUploader(core, rc, to)
+	return &vExporter{export: up.upload, shutdown: up.stopCtx, close: up.close}
 }
 
 type vFake struct{ core *vCore }
@@ -37,9 +52,22 @@ func (f vFake) Export(ctx context.Context, in *coltracepb.ExportTraceServiceRequ
 	return resp, err
 }
 
-func vNewUploader(core *vCore, rc RetryConfig) *vUploader {
+// vTimeoutOpts: the client timeout dimension (d: option absent = default 10 s, p: 30 s, z: 0 = none, q: 30 ms)
+func vTimeoutOpts(to string) []Option {
+	switch to {
+	case "p":
+		return []Option{WithTimeout(30 * time.Second)}
+	case "z":
+		return []Option{WithTimeout(0)}
+	case "q":
+		return []Option{WithTimeout(30 * time.Millisecond)}
+	}
+	return nil
+}
+
+func vNewUploader(core *vCore, rc RetryConfig, to string) *vUploader {
 	// no Start(): no ClientConn is created, the service client is the scripted one
-	c := newClient(WithInsecure(), WithEndpoint("verif.invalid:4317"), WithRetry(rc))
+	c := newClient(append([]Option{WithInsecure(), WithEndpoint("verif.invalid:4317"), WithRetry(rc)}, vTimeoutOpts(to)...)...)
 	c.tscMu.Lock()
 	c.tsc = vFake{core}
 	c.tscMu.Unlock()
@@ -48,12 +76,13 @@ func vNewUploader(core *vCore, rc RetryConfig) *vUploader {
 		StartTimeUnixNano: 1, EndTimeUnixNano: 2}}}}}}
 	return &vUploader{
 		upload: func(ctx context.Context) error { return c.UploadTraces(ctx, spans) },
-		stop: func() {
+		stop: func() error {
 			// Stop with an expired context: "kill any remaining exports"
 			ctx, cancel := context.WithCancel(context.Background())
 			cancel()
-			_ = c.Stop(ctx)
+			return c.Stop(ctx)
 		},
+		stopCtx: c.Stop,
 		waitStopped: func() { <-c.stopCtx.Done() },
 		close:       func() { c.stopFunc() },
 		request:     &coltracepb.ExportTraceServiceRequest{ResourceSpans: spans},
